@@ -237,6 +237,37 @@ def path_injective(ctx) -> None:
     ctx.floor('C05.path-injective', n, 6)
 
 
+def volatile_append(ctx) -> None:
+    """The in-memory registry is append-only too: publishing stores the new artifact *into* the project's mapping
+    (``self._artifacts[project][release] = ..``); the mapping of a project is never re-bound, so earlier releases (and the
+    generations below them) stay listed."""
+    prog = ctx.prog
+    reg = prog.cls('forml.provider.registry.filesystem.volatile:Registry')
+    n = 0
+    for mname in reg.methods:
+        fn = prog.func(f'{reg.ref}.{mname}')
+        for st in core.walk_local(fn.node):
+            if isinstance(st, (ast.Assign, ast.AugAssign)):
+                for t in (st.targets if isinstance(st, ast.Assign) else [st.target]):
+                    if isinstance(t, ast.Subscript) and '_artifacts' in core.src(t):
+                        n += 1
+                        ctx.check(isinstance(t.value, ast.Subscript) and core.src(t.value.value) == 'self._artifacts', 'C05.volatile', fn, f'`{core.src(t)} = ...` adds one release to the project mapping (a store one level up replaces every earlier release)', st, key=f'{mname}:artifacts')
+    ctx.floor('C05.volatile', n, 1)
+
+
+def pinned_key(ctx) -> None:
+    """A level resolved implicitly ("the latest") is resolved *once*: ``Level.key`` stores what it found in ``self._key``, so that
+    everything done through this level object - listing, dumping states, committing the tag - addresses the same release /
+    generation even when a newer one is published meanwhile."""
+    prog = ctx.prog
+    fn = prog.func('forml.io.asset._directory:Level.key')
+    stores = [st for st in core.walk_local(fn.node) if isinstance(st, ast.Assign) and any(core.src(t) == 'self._key' for t in st.targets)]
+    ok = len(stores) == 1 and core.src(stores[0].value) == 'self._parent.list().last'
+    ctx.check(ok, 'C05.pinned-key', fn, 'the implicit key is taken from the parent listing once and kept (self._key = self._parent.list().last)', stores[0] if stores else fn.node, key='key:pin')
+    rets = [r for r in core.walk_local(fn.node) if isinstance(r, ast.Return)]
+    ctx.check(bool(rets) and all(core.src(r.value) == 'self._key' for r in rets), 'C05.pinned-key', fn, 'every exit of Level.key returns the kept key', rets[0] if rets else fn.node, key='key:return')
+
+
 def staged_guard(ctx) -> None:
     """A generation is committed only from states staged under that very release: inside the loop over the tag's state ids a
     missing staged file refuses the commit - unconditionally (no resume/skip path) - before anything of this state is moved."""
@@ -563,6 +594,8 @@ def key_paths(ctx) -> None:
 
 def run(ctx) -> None:
     path_injective(ctx)
+    volatile_append(ctx)
+    pinned_key(ctx)
     # nothing is computed from a loop variable after its loop ran to completion (it would be the last element's value)
     shared.r_staleloop(ctx, ctx.prog.functions([m for m in ctx.prog.modules if m.startswith(('forml.io.asset', 'forml.provider.registry'))]))
     key_paths(ctx)
